@@ -62,6 +62,8 @@ RULE = ("random histories plus, every run: MAGNITUDE histories (every documented
         "replayed in the model as the list form; results copied into a second environment); ALIASING pass over every returned node of "
         "every history (every accessor read, every returned dict/list/set edited in place, read again: unchanged, equal to the args() view, "
         "fresh object per call, printers unchanged, table still maps the content to the node; the final tables are read after the edits); "
+        "COMPOSITION history (every normalising / sort-dispatching constructor over operands headed by every operator of the argument sort, "
+        "in every sort the head is overloaded for: blueprint read-back, derived sort, replayed in the model); "
         "history = list of constructor calls on 1-3 fresh Environments (about 45 calls each); compared: every returned "
         "node_id / error and the complete final formulae table of every environment, model vs implementation; oracle: "
         "skey injectivity over ALL nodes of every table, blueprint read-backs, same request => same outcome, copies; "
@@ -334,6 +336,7 @@ class History(object):
         self.lazy = []            # indexes of environments created in the course of the history
         self.collected = 0        # released source environments that were really garbage-collected
         self.strict_err = False   # same request => same exception class too
+        self.comp_calls = 0
         self.alias_stats = {"nodes": 0, "reads": 0, "mutable_results": 0, "mutations": 0}
         self.model = True         # replayed in the Coq model (False: entry points outside the model, oracle only)
         self.released_n = 0
@@ -1501,6 +1504,8 @@ def magnitude_history(widths, tier):
         values = sorted(set(v for v in (0, 1, top - 1, top // 2, top // 3, 255, 256, 257) if 0 <= v < top))
         if w >= 511:
             values = [0, 1, top - 1, top // 3]
+        if w >= 4096 and tier == "quick":
+            values = [1, top - 1]                      # the 4096-bit literals dominate the Coq time of the quick tier
         for v in values:
             bits = format(v, "0%db" % w)
             key = ("BV", v, w)
@@ -1837,6 +1842,193 @@ def container_histories():
     return hs
 
 
+def composition_history():
+    """every normalising / sort-dispatching constructor applied to operands whose HEAD is each operator of the argument
+    sort, in every sort the head operator is overloaded for (DIV, PLUS, MINUS, TIMES, POW over Int and Real; ITE, SELECT,
+    FUNCTION over every sort; EQUALS / IFF; LE / LT over Int and Real ...): the result must read back the blueprint the
+    constructor documents, be the table's node for that blueprint and have the derived sort.  The model replays the calls."""
+    h = History(random.Random(13), 1)
+    E = h.envs[0]
+    m = E.m
+    BV8 = BVt(8)
+    AII, AIR, AIB, AIV, AIS = ("Arr", I, I), ("Arr", I, R), ("Arr", I, B), ("Arr", I, BV8), ("Arr", I, S)
+
+    def sym(nm, d):
+        return h.do(E, "Symbol", "RSymbol %s %s" % (tocoq.cstr(nm), cty(d)), "m0.Symbol(%r, ...)" % nm, lambda: m.Symbol(nm, mkty(E.env, d)), must=True)
+
+    def mk(meth, coq, args, zs=(), pyargs=None):
+        return h.ctor(E, meth, coq, meth, args, zs=zs, pyargs=pyargs)
+    a, b = sym("a", B), sym("b", B)
+    i, j = sym("i", I), sym("j", I)
+    r, q = sym("r", R), sym("q", R)
+    p, u = sym("p", BV8), sym("u", BV8)
+    s_, t_ = sym("s", S), sym("t", S)
+    arr = {d: sym("arr_%s" % d[2][0], d) for d in (AII, AIR, AIB, AIV, AIS)}
+    arr2 = sym("arr2", AII)
+    fun = {d: sym("f_%s" % d[0], ("Fun", (I,), d)) for d in (I, R, B, BV8, S)}
+    c_i = h.do(E, "Int", "RInt (PyInt 3%Z)", "m0.Int(3)", lambda: m.Int(3), must=True)
+    c_i0 = h.do(E, "Int", "RInt (PyInt 0%Z)", "m0.Int(0)", lambda: m.Int(0), must=True)
+    c_i2 = h.do(E, "Int", "RInt (PyInt 2%Z)", "m0.Int(2)", lambda: m.Int(2), must=True)
+    c_r = h.do(E, "Real", "RReal (PyFrac 5%Z 2%Z)", "m0.Real(Fraction(5, 2))", lambda: m.Real(Fraction(5, 2)), must=True)
+    c_r0 = h.do(E, "Real", "RReal (PyInt 0%Z)", "m0.Real(0)", lambda: m.Real(0), must=True)
+    c_r2 = h.do(E, "Real", "RReal (PyInt 2%Z)", "m0.Real(2)", lambda: m.Real(2), must=True)
+    c_v = h.do(E, "BV", "RBV (BvInt 5%Z) (Some 8%Z)", "m0.BV(5, 8)", lambda: m.BV(5, 8), must=True)
+    c_s = h.do(E, "String", "RString %s" % cpyval("ab"), "m0.String('ab')", lambda: m.String("ab"), must=True)
+    c_t = h.do(E, "Bool", "RBool (PyBool true)", "m0.TRUE()", lambda: m.TRUE(), must=True)
+
+    def generic(d, x, y):
+        """heads available in every sort d (x, y: two symbols of sort d)"""
+        out = [("symbol", x), ("Ite", mk("Ite", "(CNode OIte)", [a, x, y]))]
+        if d in fun:
+            out.append(("Function", mk("Function", "CFunction", [fun[d], i], pyargs=("%s, [%s]" % (h.name(E, fun[d]), h.name(E, i)), lambda: m.Function(fun[d], [i])))))
+        ad = ("Arr", I, d)
+        if ad in arr:
+            out.append(("Select", mk("Select", "(CNode OSelect)", [arr[ad], i])))
+        return out
+    heads = {}
+    heads[I] = generic(I, i, j) + [
+        ("constant", c_i), ("Plus", mk("Plus", "CPlus", [i, j])), ("Minus", mk("Minus", "(CNode OMinus)", [i, j])), ("Times", mk("Times", "CTimes", [i, j])),
+        ("Div", mk("Div", "CDiv", [i, j])), ("Div_by_const", mk("Div", "CDiv", [i, c_i])), ("StrLength", mk("StrLength", "(CNode (OStr SLength))", [s_])),
+        ("StrToInt", mk("StrToInt", "(CNode (OStr SToInt))", [s_])), ("StrIndexOf", mk("StrIndexOf", "(CNode (OStr SIndexOf))", [s_, t_, i])),
+        ("BVToNatural", mk("BVToNatural", "(CNode OBVToNat)", [p]))]
+    heads[R] = generic(R, r, q) + [
+        ("constant", c_r), ("Plus", mk("Plus", "CPlus", [r, q])), ("Minus", mk("Minus", "(CNode OMinus)", [r, q])), ("Times", mk("Times", "CTimes", [r, q])),
+        ("Div", mk("Div", "CDiv", [r, q])), ("Div_by_zero", mk("Div", "CDiv", [r, c_r0])), ("Div_by_const", mk("Div", "CDiv", [r, c_r])),
+        ("ToReal", mk("ToReal", "CToReal", [i])), ("ToReal_of_Div", mk("ToReal", "CToReal", [dict(heads[I])["Div"]])), ("Pow", mk("Pow", "CPow", [r, c_r2])),
+        ("Pow_int", mk("Pow", "CPow", [i, c_i2]))]
+    heads[B] = generic(B, a, b) + [
+        ("constant", c_t), ("Not", mk("Not", "CNot", [a])), ("And", mk("And", "CAnd", [a, b])), ("Or", mk("Or", "COr", [a, b])),
+        ("Implies", mk("Implies", "(CNode OImplies)", [a, b])), ("Iff", mk("Iff", "(CNode OIff)", [a, b])), ("Equals", mk("Equals", "(CNode OEquals)", [i, j])),
+        ("Equals_real", mk("Equals", "(CNode OEquals)", [r, q])), ("LE_int", mk("LE", "(CNode OLe)", [i, j])), ("LE_real", mk("LE", "(CNode OLe)", [r, q])),
+        ("LT_int", mk("LT", "(CNode OLt)", [i, j])), ("LT_real", mk("LT", "(CNode OLt)", [r, q])),
+        ("ForAll", mk("ForAll", "(CQuant true)", [a, i], pyargs=("[%s], %s" % (h.name(E, i), h.name(E, a)), lambda: m.ForAll([i], a)))),
+        ("Exists", mk("Exists", "(CQuant false)", [a, r], pyargs=("[%s], %s" % (h.name(E, r), h.name(E, a)), lambda: m.Exists([r], a)))),
+        ("BVULT", mk("BVULT", "(CNode (OBVRel BUlt))", [p, u])), ("BVSLE", mk("BVSLE", "(CNode (OBVRel BSle))", [p, u])),
+        ("StrContains", mk("StrContains", "(CNode (OStr SContains))", [s_, t_])), ("StrPrefixOf", mk("StrPrefixOf", "(CNode (OStr SPrefixOf))", [s_, t_]))]
+    heads[BV8] = generic(BV8, p, u) + [
+        ("constant", c_v), ("BVNot", mk("BVNot", "(CBvUn BNot)", [p])), ("BVNeg", mk("BVNeg", "(CBvUn BNeg)", [p])), ("BVAdd", mk("BVAdd", "(CBvNary BAdd)", [p, u])),
+        ("BVAnd", mk("BVAnd", "(CBvNary BAnd)", [p, u])), ("BVSub", mk("BVSub", "(CBvBin BSub)", [p, u])), ("BVUDiv", mk("BVUDiv", "(CBvBin BUdiv)", [p, u])),
+        ("BVLShl", mk("BVLShl", "(CBvBin BLshl)", [p, u])), ("BVRol", mk("BVRol", "CBvRol", [p], zs=[3])), ("BVZExt0", mk("BVZExt", "CBvZext", [p], zs=[0])),
+        ("BVExtract_full", mk("BVExtract", "CBvExtract", [p], zs=[0, 7]))]
+    heads[S] = generic(S, s_, t_) + [
+        ("constant", c_s), ("StrConcat", mk("StrConcat", "CStrConcat", [s_, t_])), ("IntToStr", mk("IntToStr", "(CNode (OStr SFromInt))", [i])),
+        ("StrSubstr", mk("StrSubstr", "(CNode (OStr SSubstr))", [s_, i, j])), ("StrReplace", mk("StrReplace", "(CNode (OStr SReplace))", [s_, t_, s_])),
+        ("StrCharAt", mk("StrCharAt", "(CNode (OStr SCharAt))", [s_, i]))]
+    import pysmt.typing as T
+    heads[AII] = [("symbol", arr[AII]), ("Ite", mk("Ite", "(CNode OIte)", [a, arr[AII], arr2])), ("Store", mk("Store", "(CNode OStore)", [arr[AII], i, j])),
+                  ("Array", h.do(E, "Array", "RArray TInt %d [(%d, %d)]" % (c_i0.node_id(), c_i.node_id(), c_i2.node_id()), "m0.Array(INT, 0, {3: 2})",
+                                 lambda: m.Array(T.INT, c_i0, {c_i: c_i2}), must=True))]
+    heads = {d: [(lbl, x) for lbl, x in l if x is not None] for d, l in heads.items()}
+    sym2 = {I: j, R: q, B: b, BV8: u, S: t_, AII: arr2}
+
+    def sort_of(x):
+        return tdesc(E.env.stc.get_type(x))
+
+    def apply(kind, coq, meth, args, zs=(), expect=None, sort=None, pyargs=None):
+        """a normalising constructor on head operands: blueprint read-back and derived sort"""
+        n = h.ctor(E, kind, coq, meth, args, zs=zs, expect=expect, pyargs=pyargs)
+        h.comp_calls += 1
+        if n is not None and sort is not None:
+            try:
+                got = sort_of(n)
+            except Exception as ex:   # noqa
+                got = "raises %s" % type(ex).__name__
+            if got != sort:
+                h.complaints.append(("blueprint:%s:sort" % kind, "%s: the result %s has sort %s, the constructor derives %s"
+                                     % (h.py[-1], n.serialize(), got, sort), len(h.reqs) - 1))
+        return n
+    isn = History.is_node
+    for d, hl in heads.items():
+        y = sym2[d]
+        for lbl, x in hl:
+            tag = "%s" % lbl
+            # sort-dispatching equality, Ite, NotEquals: every sort
+            isb = d == B
+            apply("EqualsOrIff(%s)" % tag, "CEqualsOrIff", "EqualsOrIff", [x, y], expect=isn(op.IFF if isb else op.EQUALS, [x, y]), sort=B)
+            apply("EqualsOrIff'(%s)" % tag, "CEqualsOrIff", "EqualsOrIff", [y, x], expect=isn(op.IFF if isb else op.EQUALS, [y, x]), sort=B)
+            apply("Ite(%s)" % tag, "(CNode OIte)", "Ite", [a, x, y], expect=isn(op.ITE, [a, x, y]), sort=d)
+            if not isb:
+                apply("NotEquals(%s)" % tag, "CNotEquals", "NotEquals", [x, y], sort=B,
+                      expect=lambda n, x=x, y=y: None if (n.is_not() and isn(op.EQUALS, [x, y])(n.arg(0)) is None) else "NotEquals is not Not(Equals)")
+            if ("Arr", I, d) in arr:
+                ar_ = arr[("Arr", I, d)]
+                apply("Store(%s)" % tag, "(CNode OStore)", "Store", [ar_, i, x], expect=isn(op.ARRAY_STORE, [ar_, i, x]), sort=("Arr", I, d))
+            if d in (I, R):
+                # ToReal: TOREAL over the operand unless it IS Real-sorted or an Int constant
+                def exp_toreal(n, x=x, d=d):
+                    if d == R:
+                        return None if n is x else "ToReal of a Real-sorted term is not the term"
+                    if isic(x):
+                        return None if (isrc(n) and n.constant_value() == x.constant_value()) else "ToReal(Int constant) is not the Real constant"
+                    return isn(op.TOREAL, [x])(n) or (None if n.is_toreal() else "is_toreal() is False")
+                apply("ToReal(%s)" % tag, "CToReal", "ToReal", [x], expect=exp_toreal, sort=R)
+                for cn, c in (("sym", y), ("const", c_r if d == R else c_i), ("zero", c_r0 if d == R else c_i0), ("realconst", c_r), ("realzero", c_r0)):
+                    def exp_div(n, x=x, c=c):
+                        if isrc(c) and c.constant_value() != 0:
+                            inv = 1 / Fraction(c.constant_value())
+                            return None if (n.node_type() == op.TIMES and n.arg(0) is x and isrc(n.arg(1)) and n.arg(1).constant_value() == inv) else "Div by a Real constant is not Times by the inverse"
+                        return isn(op.DIV, [x, c])(n)
+                    same = (sort_of(c) == d)
+                    apply("Div(%s,%s)" % (tag, cn), "CDiv", "Div", [x, c], expect=exp_div, sort=d if same else None)
+                    apply("Div'(%s,%s)" % (tag, cn), "CDiv", "Div", [c, x], sort=d if same else None,
+                          expect=lambda n, x=x, c=c: (None if (n.node_type() == op.TIMES and n.arg(0) is c) else "Div by a Real constant is not Times") if (isrc(x) and x.constant_value() != 0) else isn(op.DIV, [c, x])(n))
+                e2 = c_r2 if d == R else c_i2
+
+                def exp_pow(n, x=x, e2=e2):
+                    if isnum(x):
+                        return None if (isrc(n) and n.constant_value() == Fraction(x.constant_value()) ** 2) else "Pow of constants is not the Real constant"
+                    return isn(op.POW, [x, e2])(n)
+                apply("Pow(%s)" % tag, "CPow", "Pow", [x, e2], expect=exp_pow, sort=R)
+                for meth, nt, cq in (("Plus", op.PLUS, "CPlus"), ("Times", op.TIMES, "CTimes")):
+                    apply("%s1(%s)" % (meth, tag), cq, meth, [x], expect=lambda n, x=x: None if n is x else "unary n-ary constructor is not its argument", sort=d)
+                    apply("%s2(%s)" % (meth, tag), cq, meth, [x, y], expect=isn(nt, [x, y]), sort=d)
+                apply("Minus(%s)" % tag, "(CNode OMinus)", "Minus", [x, y], expect=isn(op.MINUS, [x, y]), sort=d)
+                apply("LE(%s)" % tag, "(CNode OLe)", "LE", [x, y], expect=isn(op.LE, [x, y]), sort=B)
+                apply("GE(%s)" % tag, "CGE", "GE", [x, y], expect=isn(op.LE, [y, x]), sort=B)
+                apply("GT(%s)" % tag, "CGT", "GT", [x, y], expect=isn(op.LT, [y, x]), sort=B)
+            if d == I:
+                apply("Select(%s)" % tag, "(CNode OSelect)", "Select", [arr[AII], x], expect=isn(op.ARRAY_SELECT, [arr[AII], x]), sort=I)
+                apply("IntToStr(%s)" % tag, "(CNode (OStr SFromInt))", "IntToStr", [x], expect=isn(op.INT_TO_STR, [x]), sort=S)
+            if isb:
+                apply("Not(%s)" % tag, "CNot", "Not", [x], sort=B,
+                      expect=lambda n, x=x: (None if n is x.arg(0) else "Not(Not(x)) is not x") if x.is_not() else isn(op.NOT, [x])(n))
+                for meth, nt, cq in (("And", op.AND, "CAnd"), ("Or", op.OR, "COr")):
+                    apply("%s1(%s)" % (meth, tag), cq, meth, [x], expect=lambda n, x=x: None if n is x else "unary n-ary constructor is not its argument", sort=B)
+                    apply("%s2(%s)" % (meth, tag), cq, meth, [x, y], expect=isn(nt, [x, y]), sort=B)
+                apply("Xor(%s)" % tag, "CXor", "Xor", [x, y], sort=B,
+                      expect=lambda n, x=x, y=y: None if (n.is_not() and isn(op.IFF, [x, y])(n.arg(0)) is None) else "Xor is not Not(Iff)")
+                apply("Implies(%s)" % tag, "(CNode OImplies)", "Implies", [x, y], expect=isn(op.IMPLIES, [x, y]), sort=B)
+                apply("ForAll(%s)" % tag, "(CQuant true)", "ForAll", [x, i], sort=B, pyargs=("[%s], %s" % (h.name(E, i), h.name(E, x)), lambda x=x: m.ForAll([i], x)),
+                      expect=lambda n, x=x: isn(op.FORALL, [x])(n))
+                apply("ForAll0(%s)" % tag, "(CQuant true)", "ForAll", [x], sort=B, pyargs=("[], %s" % h.name(E, x), lambda x=x: m.ForAll([], x)),
+                      expect=lambda n, x=x: None if n is x else "ForAll over no variable is not the body")
+            if d == BV8:
+                apply("BVExtract_full(%s)" % tag, "CBvExtract", "BVExtract", [x], zs=[0, 7], expect=isn(op.BV_EXTRACT, [x], (8, 0, 7)), sort=BV8)
+                apply("BVExtract(%s)" % tag, "CBvExtract", "BVExtract", [x], zs=[2, 5], expect=isn(op.BV_EXTRACT, [x], (4, 2, 5)), sort=BVt(4))
+                apply("BVZExt0(%s)" % tag, "CBvZext", "BVZExt", [x], zs=[0], expect=isn(op.BV_ZEXT, [x], (8, 0)), sort=BV8)
+                apply("BVSExt(%s)" % tag, "CBvSext", "BVSExt", [x], zs=[4], expect=isn(op.BV_SEXT, [x], (12, 4)), sort=BVt(12))
+                apply("BVRol0(%s)" % tag, "CBvRol", "BVRol", [x], zs=[0], expect=isn(op.BV_ROL, [x], (8, 0)), sort=BV8)
+                apply("BVRor8(%s)" % tag, "CBvRor", "BVRor", [x], zs=[8], expect=isn(op.BV_ROR, [x], (8, 8)), sort=BV8)
+                apply("BVNot(%s)" % tag, "(CBvUn BNot)", "BVNot", [x], expect=isn(op.BV_NOT, [x], (8,)), sort=BV8)
+                apply("BVAdd1(%s)" % tag, "(CBvNary BAdd)", "BVAdd", [x], expect=lambda n, x=x: None if n is x else "unary BVAdd is not its argument", sort=BV8)
+                apply("BVAdd2(%s)" % tag, "(CBvNary BAdd)", "BVAdd", [x, y], expect=isn(op.BV_ADD, [x, y], (8,)), sort=BV8)
+                apply("BVConcat(%s)" % tag, "CBvConcat", "BVConcat", [x, y], expect=isn(op.BV_CONCAT, [x, y], (16,)), sort=BVt(16))
+                apply("BVLShl_int(%s)" % tag, "(CBvShiftInt BLshl)", "BVLShl", [x], zs=[1], sort=BV8,
+                      expect=lambda n, x=x: None if (n.node_type() == op.BV_LSHL and n.arg(0) is x and n.arg(1).is_bv_constant() and n.arg(1).constant_value() == 1) else "shift by int")
+                apply("BVULT(%s)" % tag, "(CNode (OBVRel BUlt))", "BVULT", [x, y], expect=isn(op.BV_ULT, [x, y]), sort=B)
+                apply("BVUGT(%s)" % tag, "(CBvSwapRel BUlt)", "BVUGT", [x, y], expect=isn(op.BV_ULT, [y, x]), sort=B)
+                apply("BVToNatural(%s)" % tag, "(CNode OBVToNat)", "BVToNatural", [x], expect=isn(op.BV_TONATURAL, [x]), sort=I)
+            if d == S:
+                apply("StrConcat2(%s)" % tag, "CStrConcat", "StrConcat", [x, y], expect=isn(op.STR_CONCAT, [x, y]), sort=S)
+                apply("StrConcat1(%s)" % tag, "CStrConcat", "StrConcat", [x])
+                apply("StrLength(%s)" % tag, "(CNode (OStr SLength))", "StrLength", [x], expect=isn(op.STR_LENGTH, [x]), sort=I)
+            if d == AII:
+                apply("Select_arr(%s)" % tag, "(CNode OSelect)", "Select", [x, i], expect=isn(op.ARRAY_SELECT, [x, i]), sort=I)
+                apply("Store_arr(%s)" % tag, "(CNode OStore)", "Store", [x, i, j], expect=isn(op.ARRAY_STORE, [x, i, j]), sort=AII)
+    h.finish()
+    return h
+
+
 DIRECTED = "directed"
 
 
@@ -1932,6 +2124,9 @@ def run(tier, only=None):
             tags.append("magnitude:%d" % j)
         hists.append(scalar_magnitude_history())
         tags.append("magnitude:scalars")
+        # normalising constructors over every operand head
+        hists.append(composition_history())
+        tags.append("composition")
         # argument container protocol
         for j, h in enumerate(container_histories()):
             hists.append(h)
@@ -1982,7 +2177,7 @@ def run(tier, only=None):
         chk.note("model/implementation disagree in history %s at step %s: %s" % (tags[i], at, disagreements[-1]["call"]))
     chk.cov["correspondence"] = {"histories": len(hists), "calls": sum(len(h.reqs) for h in hists), "calls_raising": nerr,
                                  "environments": sum(len(h.envs) for h in hists), "nodes_compared": sum((E.nnodes if E.released else len(E.m.formulae)) for h in hists for E in h.envs),
-                                 "aliasing": {k: sum(h.alias_stats[k] for h in hists) for k in ("nodes", "reads", "mutable_results", "mutations")},
+                                 "composition_calls": sum(h.comp_calls for h in hists), "aliasing": {k: sum(h.alias_stats[k] for h in hists) for k in ("nodes", "reads", "mutable_results", "mutations")},
                                  "short_lived_environments": sum(h.released_n for h in hists), "of_which_garbage_collected": sum(h.collected for h in hists),
                                  "by_constructor": hist_kinds, "disagreements": len(bad), "case_file_errors": len(errs), "examples": disagreements}
     chk.sample({"kind": "history", "script_head": hists[-1].script(12)})
